@@ -15,8 +15,9 @@ Open Scope N_scope.
 
 Section Row.
   (* X: the part of StyleAttributes the styler owns (STL: boxing/italics/underline; teletext: unit);
-     S: the styler's own state *)
-  Variables (X S : Type).
+     S: the styler's own state; D: the state of the character decoder (STL: the pending diacritic of the character
+     handler, which lives across rows and subtitles; teletext: unit) *)
+  Variables (X S D : Type).
 
   Record styler := mkStyler {
     sy_new : S;                     (* fs() *)
@@ -27,7 +28,7 @@ Section Row.
     sy_prop : X -> X                (* propagateStyleAttributes(li.InlineStyle) *)
   }.
 
-  Variable dec : N -> res str.       (* decoder.decode; a Go index panic is a Panic *)
+  Variable dec : D -> N -> res (str * D).   (* decoder.decode: text and the decoder afterwards; a Go index panic is a Panic *)
   Variable fs : option styler.       (* nil for the transport-stream reader *)
 
   (* the teletext attributes of StyleAttributes *)
@@ -50,7 +51,7 @@ Section Row.
                         (count_lead 32 (ti_text li)) (count_lead 32 (rev (ti_text li)))]
     end.
 
-  Record rowst := mkRowst { rs_l : list trun; rs_li : titem; rs_started : bool }.
+  Record rowst := mkRowst { rs_l : list trun; rs_li : titem; rs_started : bool; rs_d : D }.
 
   Definition t_is_some {A} (o : option A) : bool := match o with Some _ => true | None => false end.
   (* p != q where p is nil or freshly allocated *)
@@ -79,12 +80,12 @@ Section Row.
         let x' := match fs, s with Some f, Some sv => sy_update f sv (ts_x sty) | _, _ => ts_x sty end in
         let sty' := mkTsty (t_opt_or col (ts_color sty)) (t_opt_or dh (ts_dh sty)) (t_opt_or ds (ts_ds sty))
                            (t_opt_or dw (ts_dw sty)) x' in
-        Ok (mkRowst l' (mkTitem txt sty') started)
-      else Ok (mkRowst (rs_l st) li started)
+        Ok (mkRowst l' (mkTitem txt sty') started (rs_d st))
+      else Ok (mkRowst (rs_l st) li started (rs_d st))
     else if started then
-      do t <- dec v;
-      Ok (mkRowst (rs_l st) (mkTitem (ti_text li ++ t) sty) started)
-    else Ok (mkRowst (rs_l st) li started).
+      do td <- dec (rs_d st) v;
+      Ok (mkRowst (rs_l st) (mkTitem (ti_text li ++ fst td) sty) started (snd td))
+    else Ok (mkRowst (rs_l st) li started (rs_d st)).
 
   Fixpoint row_fold (st : rowst) (row : list N) : res rowst :=
     match row with
@@ -94,15 +95,15 @@ Section Row.
 
   Variable x0 : X.   (* the styler's part of a zero StyleAttributes *)
   Definition tsty0 : tsty := mkTsty None None None None x0.
-  Definition rowst0 : rowst := mkRowst [] (mkTitem [] tsty0) false.
+  Definition rowst0 (d : D) : rowst := mkRowst [] (mkTitem [] tsty0) false d.
 
-  (* parseTeletextRow: the runs of the line ([] = no line appended to the item) *)
-  Definition parse_row (row : list N) : res (list trun) :=
-    do st <- row_fold rowst0 row;
-    Ok (append_item (rs_l st) (rs_li st)).
+  (* parseTeletextRow: the runs of the line ([] = no line appended to the item) and the decoder afterwards *)
+  Definition parse_row (d : D) (row : list N) : res (list trun * D) :=
+    do st <- row_fold (rowst0 d) row;
+    Ok (append_item (rs_l st) (rs_li st), rs_d st).
 End Row.
 
 Arguments mkTsty {X}. Arguments ts_color {X}. Arguments ts_dh {X}. Arguments ts_ds {X}. Arguments ts_dw {X}. Arguments ts_x {X}.
 Arguments mkTitem {X}. Arguments ti_text {X}. Arguments ti_sty {X}.
 Arguments mkTrun {X}. Arguments tr_text {X}. Arguments tr_sty {X}. Arguments tr_sb {X}. Arguments tr_sa {X}.
-Arguments mkRowst {X}. Arguments rs_l {X}. Arguments rs_li {X}. Arguments rs_started {X}.
+Arguments mkRowst {X D}. Arguments rs_l {X D}. Arguments rs_li {X D}. Arguments rs_started {X D}. Arguments rs_d {X D}.
